@@ -346,6 +346,19 @@ def cases_C13(rng, tier):
         d = enc(T(t))
         out.append(case("enc", "Label", d, fam="enc", key=("Label", d), expect="ok " + d.hex()))
         out.append(case("encval", "Label", d, fam="api-encode", key=("Label", d), impl_only=True))
+    # legal but deep nesting in every free-form position, around every plausible smaller recursion limit
+    # (ciborium's own is 256; the proved model decides each depth)
+    for d in (6, 7, 8, 9, 15, 16, 17, 31, 32, 33, 63, 64, 65, 127, 128, 129, 200, 250, 253, 254, 255, 256):
+        deep = b"\x81" * d + b"\x00"
+        deepm = b"".join(b"\xa1\x00" for _ in range(d)) + b"\x00"
+        for inner in (deep, deepm):
+            for ty, b in (("Header", b"\xa1\x18\x63" + inner), ("CoseKey", b"\xa2\x01\x04\x20" + inner), ("ClaimsSet", b"\xa1\x18\x63" + inner),
+                          ("CoseSign1", b"\x84\x40\xa1\x18\x63" + inner + b"\xf6\x40"), ("CoseEncrypt0", b"\x83" + enc(B(b"\xa1\x18\x63" + inner)) + b"\xa0\xf6"),
+                          ("CoseMac", b"\x85\x40\xa0\xf6\x40\x81\x83\x40\xa1\x18\x63" + inner + b"\xf6")):
+                out.append(case("dec", ty, b, fam="depth-sweep", key=(ty, b)))
+                out.append(case("rt", ty, b, fam="depth-sweep-rt", key=(ty, b)))
+                if ty in TAGGED_TYPES:
+                    out.append(case("dectag", ty, head(6, MSG_TAG[ty]) + b, fam="depth-sweep-tagged"))
     return out
 
 def post_C13(cases, impl):
@@ -766,6 +779,19 @@ def cases_C07(rng, tier):
             out.append(case("rt", ty, b, fam="rt-f4", key=(ty, b)))
     for f in (combos.header_combo_cases, combos.key_combo_cases, combos.claims_combo_cases, combos.kdf_combo_cases, combos.msg_combo_cases):
         out += [c for c in f(case, 3) if '-rt' in c['fam']]
+    # legal but deep nesting in every free-form position, around every plausible smaller recursion limit
+    # (ciborium's own is 256; the proved model decides each depth)
+    for d in (6, 7, 8, 9, 15, 16, 17, 31, 32, 33, 63, 64, 65, 127, 128, 129, 200, 250, 253, 254, 255, 256):
+        deep = b"\x81" * d + b"\x00"
+        deepm = b"".join(b"\xa1\x00" for _ in range(d)) + b"\x00"
+        for inner in (deep, deepm):
+            for ty, b in (("Header", b"\xa1\x18\x63" + inner), ("CoseKey", b"\xa2\x01\x04\x20" + inner), ("ClaimsSet", b"\xa1\x18\x63" + inner),
+                          ("CoseSign1", b"\x84\x40\xa1\x18\x63" + inner + b"\xf6\x40"), ("CoseEncrypt0", b"\x83" + enc(B(b"\xa1\x18\x63" + inner)) + b"\xa0\xf6"),
+                          ("CoseMac", b"\x85\x40\xa0\xf6\x40\x81\x83\x40\xa1\x18\x63" + inner + b"\xf6")):
+                out.append(case("dec", ty, b, fam="depth-sweep", key=(ty, b)))
+                out.append(case("rt", ty, b, fam="depth-sweep-rt", key=(ty, b)))
+                if ty in TAGGED_TYPES:
+                    out.append(case("dectag", ty, head(6, MSG_TAG[ty]) + b, fam="depth-sweep-tagged"))
     return out
 
 def post_C07(cases, impl):
@@ -897,6 +923,19 @@ def cases_C09(rng, tier):
         out.append(case("dec", "CoseEncrypt", enc(A(B(b""), M(), NULL, A(r1))), fam="nested-recipient",
                         expect_re=(r"err:\w+" if bad else r"ok .*")))
     out += combos.msg_combo_cases(case, 1) + (combos.msg_combo_cases(case, 2) if tier != 'quick' else [])
+    # legal but deep nesting in every free-form position, around every plausible smaller recursion limit
+    # (ciborium's own is 256; the proved model decides each depth)
+    for d in (6, 7, 8, 9, 15, 16, 17, 31, 32, 33, 63, 64, 65, 127, 128, 129, 200, 250, 253, 254, 255, 256):
+        deep = b"\x81" * d + b"\x00"
+        deepm = b"".join(b"\xa1\x00" for _ in range(d)) + b"\x00"
+        for inner in (deep, deepm):
+            for ty, b in (("Header", b"\xa1\x18\x63" + inner), ("CoseKey", b"\xa2\x01\x04\x20" + inner), ("ClaimsSet", b"\xa1\x18\x63" + inner),
+                          ("CoseSign1", b"\x84\x40\xa1\x18\x63" + inner + b"\xf6\x40"), ("CoseEncrypt0", b"\x83" + enc(B(b"\xa1\x18\x63" + inner)) + b"\xa0\xf6"),
+                          ("CoseMac", b"\x85\x40\xa0\xf6\x40\x81\x83\x40\xa1\x18\x63" + inner + b"\xf6")):
+                out.append(case("dec", ty, b, fam="depth-sweep", key=(ty, b)))
+                out.append(case("rt", ty, b, fam="depth-sweep-rt", key=(ty, b)))
+                if ty in TAGGED_TYPES:
+                    out.append(case("dectag", ty, head(6, MSG_TAG[ty]) + b, fam="depth-sweep-tagged"))
     return out
 
 # ================================================================= C10
@@ -1177,7 +1216,8 @@ def cases_C20(rng, tier):
                             label_zero=zero, key=enc(d), order=order))
     # label sets drawn ONLY from one encoded-length class or straddling exactly one class boundary (a fast
     # path keyed on "all labels are short" must still agree with the order of the encodings)
-    classes = [[-1, -10, -24, 6, 23], [-25, -100, -256, 24, 25, 255], [-257, -65536, 256, 65535], ["a", "b", ""], ["aa", "ab", "é"]]
+    classes = [[-1, -10, -24, 6, 23], [-25, -100, -256, 24, 25, 255], [-257, -65536, 256, 65535], ["a", "b", ""], ["aa", "ab", "é"],
+               ["k" * 22, "k" * 23, "j" * 24], ["x" * 253, "y" * 254, "z" * 255, "w" * 256, "v" * 300], [-1, 23, "a", 2**32, -2**63]]
     sets = []
     for i, ca in enumerate(classes):
         for cb in classes[i:i + 2]:
